@@ -302,8 +302,12 @@ func (g *gen) opReset() {
 			g.final = nb.num - 2
 		}
 	}
+	g.moveHead(nb)
+}
+
+// moveHead emits the Reset to nb and re-estimates what is pooled
+func (g *gen) moveHead(nb *blockSpec) {
 	g.ops = append(g.ops, L(I(2), U(nb.id), U(g.final)))
-	// re-estimate what is pooled
 	for a := 0; a < g.naccts; a++ {
 		var keep []*txSpec
 		var spent uint64
